@@ -404,10 +404,23 @@ def rx_ledger(ctx):
         return
     rets = [n for n in walk_local(fn) if isinstance(n, ast.Return)]
     grant = [r for r in rets if cv(r.value) != 0]
-    ok = len(grant) == 1 and _lin_eq(_lin(grant[0].value), {'self.rx_max_credits': 1, 'self.rx_credits': -1})
-    g = [(norm(t), pol) for t, pol in paths.flat_guards(grant[0])] if grant else []
+    # single-assignment locals are read through (the occupied part of the window may be named)
+    defs = {st.targets[0].id: st.value for st in walk_local(fn) if isinstance(st, ast.Assign) and isinstance(st.targets[0], ast.Name)}
+
+    def through(e):
+        txt = norm(e)
+        for k, v in defs.items():
+            txt = re.sub(rf'\b{k}\b', f'({norm(v)})', txt)
+        return ast.parse(txt, mode='eval').body
+    Q = 'len(self._enqueued_rx_packets)'
+    lf = _lin(through(grant[0].value)) if len(grant) == 1 else None
+    # what is held: the credits the peer has, plus (optionally) the frames queued for a sink that is not attached yet
+    ok = lf is not None and (_lin_eq(lf, {'self.rx_max_credits': 1, 'self.rx_credits': -1}) or _lin_eq(lf, {'self.rx_max_credits': 1, 'self.rx_credits': -1, Q: -1}))
+    with_queue = lf is not None and _lin_eq(lf, {'self.rx_max_credits': 1, 'self.rx_credits': -1, Q: -1})
+    g = [(through(t), pol) for t, pol in paths.flat_guards(grant[0])] if grant else []
     from ..sym import ineq, same_ineq
-    ok = ok and len(g) == 1 and same_ineq(ineq(g[0][0], g[0][1]), ineq('self.rx_credits <= self.rx_credits_threshold'))
+    want = f'self.rx_credits + {Q} <= self.rx_credits_threshold' if with_queue else 'self.rx_credits <= self.rx_credits_threshold'
+    ok = ok and len(g) == 1 and same_ineq(ineq(g[0][0], g[0][1]), ineq(want))
     R.check(ok, rule, f'{DLC}.rx_credits_needed', 'grants rx_max_credits - rx_credits when at or below the threshold, else nothing', 'replenishment grant is not `rx_max_credits - rx_credits` under `rx_credits <= threshold`: the peer may be granted more than the receiver can take, or starve', p.loc(fn))
     try:
         mx = p.module_const('bumble.rfcomm', 'RFCOMM_DEFAULT_MAX_CREDITS')
